@@ -1,8 +1,8 @@
 ---------------------------- MODULE MC_LazyRows ----------------------------
 EXTENDS LazyRows
-AllBases   == {"dense", "sparse", "arffd", "arffs", "catd", "cats"}
+AllBases   == {"dense", "sparse", "arffd", "arffs", "catd", "cats", "cats3"}
 PlainBases == {"dense", "sparse"}
 ArffBases  == {"arffd", "arffs"}
-CatBases   == {"catd", "cats"}
+CatBases   == {"catd", "cats", "cats3"}
 DenseOnly  == {"dense"}
 =============================================================================
